@@ -440,7 +440,14 @@ def check_suite_parametric(rep, facts, rule, scope=None, floor=None, what='suite
         if not gs:
             continue
         n += 1
-        text = list(_strings({'l': b.raw.get('locals'), 'b': b.raw.get('blocks'), 's': b.raw.get('sig'), 'p': b.raw.get('promoted')}))
+        # where a *substitution* shows: types of locals, the signature, and the callee paths / generic arguments / self
+        # types / argument and result types of calls.  Constants of a concrete algorithm (`ExportOnlyAead::AEAD_ID` in a
+        # comparison) are a special case of a value, not a re-instantiation, and are left to the rules on values.
+        text = list(_strings({'l': [l.get('ty') for l in (b.raw.get('locals') or [])], 's': b.raw.get('sig')}))
+        for blk in b.raw.get('blocks') or []:
+            t = blk.get('term') or {}
+            if t.get('k') == 'call':
+                text += list(_strings([t.get('func'), t.get('arg_tys'), t.get('dest_ty')]))
         hits = []
         for g in gs:
             for c, rx in pats[g]:
